@@ -27,6 +27,7 @@ type Clause struct {
 	Line  int
 	File  string
 	InScope  bool // call-site assertion attached only where its identifiers are in scope
+	Never    bool // never_call: no call site is expected
 	Attached int
 }
 
@@ -53,6 +54,7 @@ type Contract struct {
 	Opaque   bool // never auto-inline
 	External bool // explicitly external: havoc
 	EffOnly  bool // carries only effect declarations: no VCs are generated for it
+	Standalone bool // invisible to callers
 	Build    string // build tag under which this contract applies ("" = default build)
 }
 
@@ -463,6 +465,11 @@ func parseContractFile(path, pkgPath string) ([]*Contract, error) {
 		case "build":
 			cur.Build = strings.TrimSpace(rest)
 			continue
+		case "standalone":
+			// verified on its own; callers keep treating the function as they would
+			// without a contract (inlined or external), so adding it cannot disturb them
+			cur.Standalone = true
+			continue
 		case "trusted":
 			cur.Trusted = true
 			continue
@@ -525,6 +532,17 @@ func parseContractFile(path, pkgPath string) ([]*Contract, error) {
 				cl.InScope = true
 			}
 			e, err := parseSpecExpr(cl.Text[i+1:])
+			if err != nil {
+				return nil, fail(err)
+			}
+			cl.Expr = e
+		case "never_call":
+			// never_call NAME: the function makes no call to NAME (an assertion `false`
+			// at every such call site; nothing is demanded when there is none)
+			cl.Name = strings.TrimSpace(cl.Text)
+			cl.Kind = "assert_before_call"
+			cl.Never = true
+			e, err := parseSpecExpr("false")
 			if err != nil {
 				return nil, fail(err)
 			}
